@@ -129,6 +129,10 @@ def run(ctx):
     ctx.guard(_joint, ctx, py)
     ctx.guard(_standin, ctx, py)
 
+    # frame of the modules under contract (no state kept between calls, arguments left alone): same analysis as C19
+    from props import C19 as _C19
+    ctx.guard(_C19.frame_obligations, ctx, py, "C08", {'filters', 'kalman'})
+
 
 def _composition_lemma(ctx):
     """Lemma over the contract of compute_process_matrices: from the semigroup law of expm for the block-triangular Van Loan
